@@ -450,8 +450,10 @@ def build_fn(unit, item, imp, fnitem, spec: Fn, cover=False):
                            r'match \1 { Ok(v_) => Ok(v_), Err(_) => Err(\2) }')
     if n19 + n19b:
         applied.append(("R19", "E.map_err(|_| X)[?]", f"match E {{ Ok(v) => .., Err(_) => .. }} x{n19 + n19b}"))
-    # declared substitutions
-    for (rule, rx, rp) in list(unit.global_subst) + list(spec.subst):
+    # declared substitutions (+ the std renames every unit gets)
+    STD_SUBST = [("R6", r'\bu64::from_le_bytes\(', 'u64_from_le_bytes('),
+                 ("R6", r'\b(\w+(?:\[\w+\])?)\.to_le_bytes\(\)', r'u64_to_le_bytes(\1)')]
+    for (rule, rx, rp) in STD_SUBST + list(unit.global_subst) + list(spec.subst):
         whole = sig + "\x00" + body
         whole2, n = _code_sub(whole, rx, rp)
         if n:
@@ -551,12 +553,15 @@ def build_const(unit, item, cst, spec: Fn, cover=False):
     if not m:
         raise Unsupported(f"cannot parse const {spec.name}")
     vis, kw, name, ty, expr = m.groups()
+    if not vis.strip():
+        vis = "pub "          # R17: consts of trait impls / private consts are read from sibling modules
     applied = [("R14", f"{kw} {name}: {ty} = ..;", "exec const with ensures")]
     for (rule, rx, rp) in list(unit.global_subst) + list(spec.subst):
         expr2, n = _code_sub(expr, rx, rp)
-        if n:
-            applied.append((rule, rx, f"{rp} x{n}"))
-        expr = expr2
+        ty2, n2 = _code_sub(ty, rx, rp)
+        if n + n2:
+            applied.append((rule, rx, f"{rp} x{n + n2}"))
+        expr, ty = expr2, ty2
     if item.mode == "stub":
         text = f"#[verifier::external_body]\n{vis}exec const {name}: {ty}\n    ensures {spec.ensures}\n{{ unimplemented!() }}\n"
         return text, dict(fn=spec.name, mode="stub", proved_in=item.proved_in)
